@@ -106,7 +106,7 @@ def run_sweep(tier, seed, spec, col):
 def check_sweep(case, col, mutation, log_likelihood, seed_numba, rng, warnings):
     ploidy, n_base, s = case["ploidy"], case["n_base"], case["seed"]
     n_alleles = rng.integers(2, 5, size=n_base).astype(np.int8)
-    reads = np.full((1, n_base, 4), np.nan)
+    reads = np.full((1, n_base, int(n_alleles.max())), np.nan)
     g = np.zeros((ploidy, n_base), dtype=np.int8)
     # ---- M2: recorder in place of base_step
     calls = []
@@ -254,7 +254,8 @@ def make_fix_case(rng):
     for j in range(n_base):
         if rng.random() < 0.5:
             truth[:, j] = truth[0, j]
-    reads = gen.gen_reads_from_haps(rng, truth, n_reads, n_alleles, n_nucl=4, gap_rate=float(rng.choice([0, 0.3])), err=0.0024, flip=0.0)
+    # the last axis is as wide as the widest SNV, exactly as the programs encode reads (a wider tensor is not a product input)
+    reads = gen.gen_reads_from_haps(rng, truth, n_reads, n_alleles, n_nucl=int(n_alleles.max()), gap_rate=float(rng.choice([0, 0.3])), err=0.0024, flip=0.0)
     counts = None if rng.random() < 0.3 else rng.integers(1, 6, size=n_reads).astype(np.int64)
     thr = float(rng.choice([0.6, 0.9, 0.99, 0.999, 1.0, 1.5])) if rng.random() < 0.7 else float(rng.uniform(0.51, 1.0))
     F = float(rng.choice([0.0, 0.0, 0.1, 0.5]))
@@ -300,8 +301,16 @@ def check_fix(c, col):
     model = AM.DenovoMCMC(ploidy=ploidy, n_alleles=list(n_alleles), inbreeding=F, steps=steps, chains=1, fix_homozygous=thr,
                           random_seed=c["seed"], temperatures=tuple(c["temps"]))
     # public API: fit() with one chain (the class canonicalises the row order of every step)
-    with monitors.patched((AM, "_denovo_assembler", wrapper)):
-        trace = model.fit(reads, read_counts=counts if len(reads) else None)
+    try:
+        with monitors.patched((AM, "_denovo_assembler", wrapper)):
+            trace = model.fit(reads, read_counts=counts if len(reads) else None)
+    except AssertionError:
+        # Observation outside C15 (see DESIGN.md 8.6): with a variable site that no read covers, DenovoMCMC draws the initial
+        # allele uniformly over ALL nucleotide columns of the read tensor, including columns beyond that site's allele
+        # count; if the likelihood cache is on this trips arraymap's `j < n_branches` assertion.  Not a fixing-decision
+        # matter: count it and move on.
+        col.count("fits_aborted_by_invalid_initial_allele")
+        return
     gen_trace = np.asarray(trace.genotypes)[0]
     col.count("fits_checked")
     het = [j for j in range(n_base) if j not in fixed_allele]
@@ -326,7 +335,7 @@ def check_fix(c, col):
             # work out which were fixed by the code from the columns that reached the sampler
             viol("fixed-site-decision-wrong", "sampler received %d columns; oracle expects %d variable sites %s (threshold %g)" % (seen["reads_shape"][1], len(het), het, thr))
             return
-        exp_reads = (reads if len(reads) else np.full((1, n_base, 4), np.nan))[:, het]
+        exp_reads = (reads if len(reads) else np.full((1, n_base, int(n_alleles.max())), np.nan))[:, het]
         if not np.array_equal(np.nan_to_num(seen["reads"], nan=-1.0), np.nan_to_num(exp_reads, nan=-1.0)):
             viol("fixed-site-decision-wrong", "columns reaching the sampler are not the oracle's variable sites %s" % het)
             return
